@@ -650,16 +650,16 @@ JANET_CORE_FN(cfun_buffer_format_at,
               "(buffer/format-at buffer at format & args)",
               "Snprintf like functionality for printing values into a buffer. Returns "
               "the modified buffer.") {
-    janet_arity(argc, 2, -1);
+    janet_arity(argc, 3, -1);
     JanetBuffer *buffer = janet_getbuffer(argv, 0);
     int32_t at = janet_getinteger(argv, 1);
+    const char *strfrmt = (const char *) janet_getstring(argv, 2);
     if (at < 0) {
         at += buffer->count + 1;
     }
     if (at > buffer->count || at < 0) janet_panicf("expected index at to be in range [0, %d), got %d", buffer->count, at);
     int32_t oldcount = buffer->count;
     buffer->count = at;
-    const char *strfrmt = (const char *) janet_getstring(argv, 2);
     janet_buffer_format(buffer, strfrmt, 2, argc, argv);
     if (buffer->count < oldcount) {
         buffer->count = oldcount;
